@@ -81,7 +81,9 @@ fn checked_quotient(ctx: &mut Ctx, f: &mut LOH, round: usize) -> Result<bool, Vi
             match f.quotient() {
                 Ok(q2) => {
                     ensure!(ctx, *f == snap, "quotient-idempotent", "round {round}: a second quotient changed the diagram");
-                    ensure!(ctx, q2.table.0 == (0..k).collect::<Vec<_>>() && q2.target == k, "quotient-idempotent", "round {round}: second quotient returned {:?} -> {}", q2.table.0, q2.target);
+                    let mut img = q2.table.0.clone();
+                    img.sort_unstable();
+                    ensure!(ctx, img == (0..k).collect::<Vec<_>>() && q2.target == k, "quotient-idempotent", "round {round}: second quotient returned {:?} -> {}, not a bijection on {k} nodes", q2.table.0, q2.target);
                 }
                 Err(_) => return Err(ctx.fail("quotient-idempotent", format!("round {round}: a second quotient failed"))),
             }
